@@ -34,7 +34,8 @@ _PATHS = (
     + [[a, b] for a in LET for b in LET] * 2
     + [["a", "b", "c"], ["a", "a", "a"], ["b", "a", "c"], ["c", "c", "b"]]
 )
-PATH = st.sampled_from(_PATHS)
+_HOT = [["a"], ["b"], ["c", "a"], ["c", "b"]]  # a prefix-free set that terms hit repeatedly (overlapping leaves)
+PATH = st.one_of(st.sampled_from(_HOT), st.sampled_from(_PATHS))
 PATH0 = st.one_of(PATH, PATH, PATH, PATH, PATH, PATH, PATH, PATH, PATH, st.just([]))
 SHORT = st.sampled_from([[a] for a in LET] * 3 + [[a, b] for a in LET for b in LET])
 SUBP = st.sampled_from([[a] for a in LET] * 4 + [[a, b] for a in LET for b in LET])
@@ -62,10 +63,23 @@ def sel_strategy():
 
 
 SEL = sel_strategy()
+# selections that split the few addresses of an index-level case more often than random terms do
+VSEL = st.one_of(
+    SEL,
+    st.sampled_from(LET).map(lambda a: ["at", [a]]),
+    st.sampled_from(LET).map(lambda a: ["not", ["at", [a]]]),
+    st.tuples(st.sampled_from(["a", "b", "..."]), st.sampled_from(["a", "b"])).map(lambda x: ["at", [x[0], x[1]]]),
+    st.tuples(st.sampled_from(["a", "b", "..."]), st.sampled_from(["a", "b"])).map(lambda x: ["not", ["at", [x[0], x[1]]]]),
+)
 
 
 def _plain_pairs(unique):
-    key = st.one_of(st.sampled_from(LET), st.sampled_from(LET), st.sampled_from([[a, b] for a in LET for b in LET]))
+    key = st.one_of(
+        st.sampled_from(LET),
+        st.sampled_from(LET),
+        st.sampled_from([[a, b] for a in LET for b in LET]),
+        st.sampled_from([["c", "a"], ["c", "b"], ["a", "b", "c"], ["b", "a", "c"], ["c", "c", "a"]]),
+    )
     inner = st.lists(st.tuples(st.sampled_from(LET), VAL).map(list), min_size=1, max_size=2, unique_by=lambda kv: kv[0])
     item = st.one_of(VAL, VAL, inner.map(lambda d: ["dict", d]))
     kw = dict(unique_by=lambda kv: str(kv[0])) if unique else {}
@@ -152,7 +166,7 @@ def scalar_terms():
 def vector_case(draw):
     L = draw(st.sampled_from([1, 1, 2]))
     j0 = draw(st.integers(0, L))
-    pure_full = draw(st.integers(0, 5)) == 0
+    pure_full = draw(st.integers(0, 3)) == 0
     allow_full = pure_full or j0 < L
     path = st.lists(st.sampled_from(LET if L == 1 else ["a", "b"]), min_size=L, max_size=L)
 
@@ -181,7 +195,7 @@ def vector_case(draw):
 
     flags = [["py", True], ["py", False], ["arr", True], ["arr", False], ["arr", True], ["arr", False]]
     vecflag = st.lists(st.booleans(), min_size=cm.N, max_size=cm.N).map(lambda v: ["vec", v])
-    flag = st.one_of(st.sampled_from(flags), vecflag) if pure_full else st.sampled_from(flags)
+    flag = st.one_of(st.sampled_from(flags), vecflag, vecflag) if pure_full else st.sampled_from(flags)
 
     def ext(ch):
         switch = st.lists(ch, min_size=2, max_size=3).flatmap(
@@ -195,7 +209,8 @@ def vector_case(draw):
             st.tuples(ch, atom).map(lambda x: ["atat", x[0], x[1]]),
             switch,
             st.tuples(ch, flag).map(lambda x: ["mask", x[0], x[1]]),
-            st.tuples(ch, SEL, st.sampled_from(["chm", "sel"])).map(lambda x: ["filter", x[0], x[1], x[2]]),
+            st.tuples(ch, VSEL, st.sampled_from(["chm", "sel"])).map(lambda x: ["filter", x[0], x[1], x[2]]),
+            st.tuples(ch, ch, VSEL).map(lambda x: ["filter", ["or", "|", x[0], x[1]], x[2], "chm"]),
         )
 
     t = draw(st.recursive(atom, ext, max_leaves=5))
